@@ -21,11 +21,11 @@ func init() {
 		[]string{"scheme argument of DESIGN §4 C05: with C01.f the text of each chunk transfers control to the same successors whatever the order"},
 		"C05.a", "C05.c", "C01.f", "C04.a", "C04.b", "C04.f", "C17.a", "C17.f", "C20.e", "C04.c")
 
-	register(&Rule{ID: "C04.a", Doc: "every label reference uses the script name and an id registered before it on every path", Floor: 17, Run: c04a})
+	register(&Rule{ID: "C04.a", Doc: "every label reference uses the script name and an id registered before it on every path", Floor: 25, Run: c04a})
 	register(&Rule{ID: "C04.b", Doc: "labels rendered iff entry or registered; every chunk rendered once with its own body; next-chunk id computed from the order", Floor: 8, Run: c04b})
 	register(&Rule{ID: "C04.c", Doc: "jump destinations are ids of created chunks or return ids", Floor: 8, Run: c04c})
-	register(&Rule{ID: "C04.f", Doc: "optimised order: every append is paired with a delete and guarded by a membership test", Floor: 3, Run: c04f})
-	register(&Rule{ID: "C05.a", Doc: "the optimize flag only selects the chunk order", Floor: 3, Run: c05a})
+	register(&Rule{ID: "C04.f", Doc: "optimised order: every append is paired with a delete and guarded by a membership test", Floor: 4, Run: c04f})
+	register(&Rule{ID: "C05.a", Doc: "the optimize flag only selects the chunk order", Floor: 5, Run: c05a})
 	register(&Rule{ID: "C05.c", Doc: "every registered jump target is referenced on every path after the registration", Floor: 7, Run: c05c})
 }
 
